@@ -182,6 +182,9 @@ RETCODE adfCheckParent ( struct AdfVolume * vol,
     if ( rc != RC_OK )
         return rc;
 
+    /* only type and secType are looked at; the name copy made by adfReadGenBlock is released */
+    free ( block.name );
+
     if ( block.type!=T_HEADER 
         || (block.secType!=ST_DIR && block.secType!=ST_ROOT) ) {
         (*adfEnv.wFct)("adfCheckParent : parent secType is incorrect");
